@@ -525,6 +525,7 @@ class RecordContextMatcher:
         self.selector_backtrace = []
         self.selector_backtrace_verbosity = backtrace_verbosity
         self.data = {}
+        self.callables = frozenset()
         self.rec = None
 
     def matches(self, rec):
@@ -548,6 +549,9 @@ class RecordContextMatcher:
 
         # Type matcher
         self.data["Type"] = TypeMatcher(rec)
+
+        # Names that may be called, fixed before evaluation (generator variables are added to self.data later)
+        self.callables = frozenset(name for name, value in self.data.items() if callable(value))
 
         return self.eval(self.expression.body)
 
@@ -632,7 +636,7 @@ class RecordContextMatcher:
                 raise InvalidOperation("Error, only ast.Attribute or ast.Name are expected")
 
             func_name = resolve_attr_path(node)
-            if not (callable(self.data.get(func_name)) or func_name in WHITELIST):
+            if not (func_name in self.callables or func_name in WHITELIST):
                 raise InvalidOperation(
                     "Call '{}' not allowed. No calls other then whitelisted 'global' calls allowed!".format(func_name)
                 )
